@@ -530,3 +530,27 @@ def im2col_padding(ctx, fb):
     ok = ok and bool(img_writes) and all(any(o[0] == 'param' and o[1] == zp[0] - 1 for o in f.origins(c.args[1])) for c in img_writes)
     ctx.inst(R, 'padding-is-zero-point', ok, 'every packed image element is either image data or the zero_point parameter (%d store sites)' % len(img_writes) if ok else
              'an element stored by the int8 im2col packer can be a constant instead of the input zero point for positions outside the image: padded positions then contribute -zero_point * weight to every border output', f.loc())
+
+    # sibling agreement over every int8 kernel: pack_im2col must read its zero_point parameter (the generic kernel used to
+    # ignore it and pad with 0) and hand it to the packer
+    nk = 0
+    for g in fb.fns(crate='rten_gemm'):
+        if not g.has_mir() or not re.search(r' as rten_gemm::kernels::Kernel<u8, i8, i32>>::pack_im2col$', g.path):
+            continue
+        nk += 1
+        zl = [int(k) for k, v in (g.names or {}).items() if v in ('zero_point', '_zero_point') and 1 <= int(k) <= g.argc]
+        used = False
+        for b in g.bbs:
+            if b.get('c'):
+                continue
+            for st in b['s']:
+                if st[0] == '=' and any(op_local(o) in zl for o in _rv_operands(st[2])):
+                    used = True
+            t = b['t']
+            if t[0] == 'call' and any(op_local(a) in zl for a in t[2]):
+                used = True
+        m = re.search(r'kernels::(\w+)::(\w+) as', g.path)
+        ctx.inst(R, 'zero-point-used:' + (m.group(2) if m else g.path[-40:]), used and bool(zl),
+                 'pack_im2col passes its zero_point on to the packer' if used else
+                 'pack_im2col ignores its zero_point parameter: the padding region of a quantized image is packed as 0 instead of the zero point, so padded ConvInteger outputs are wrong on this kernel', g.loc())
+    ctx.floor(R, 'int8 Kernel::pack_im2col impls', nk, 3)
